@@ -70,7 +70,7 @@ PROPS = {
             'thorough': [{'set': 'c02', 'jobs': 8, 'timeout': 3000,
                           'harnesses': hs('c02_direct_n', 'piecewise', [1, 2, 3, 4, 5, 6, 9, 12, 17], 'segments N = {n} (loops unwound)', PW_EVAL)}],
         },
-        'probe': False,
+        'probe': True,
         'level': 'proof',
         'explanation': 'Verus contract on the real body of <Piecewise<T> as Evaluate>::evaluate (abstract piece type, ANY number of segments, EVERY f64 x): '
                        'r == segments[sel(segments, x)].poly.ev(x) with sel = first index whose end is > x (machine comparison) else the last; the assert! is '
@@ -94,7 +94,7 @@ PROPS = {
                                         H('c03_hist_n3_k3', 'piecewise', 'segments N = 3, history length 3', False, EV_FNS),
                                         H('c03_hist_n4_k3', 'piecewise', 'segments N = 4, history length 3', False, EV_FNS)]}],
         },
-        'probe': False,
+        'probe': True,
         'level': 'other',
         'explanation': 'Representation invariant of PiecewiseEvaluator proved inductive on the real bodies of new() and evaluate(): new() establishes it; from ANY state '
                        'satisfying it, ANY non-NaN query returns the piece direct evaluation selects (with argument x) and re-establishes it. '
@@ -200,7 +200,7 @@ PROPS['C12'] = {
     'verus': [],
     'kani': {'quick': [kset('c12', c12_set(['c12_n1_k3', 'c12_n2_k3', 'c12_n3_k3', 'c12_n4_k3', 'c12_n5_k2', 'c12_n6_k2']))],
              'thorough': [kset('c12', c12_set(['c12_n1_k3', 'c12_n2_k3', 'c12_n3_k3', 'c12_n4_k3', 'c12_n3_k4', 'c12_n4_k4', 'c12_n5_k2', 'c12_n6_k2', 'c12_n8_k2']), timeout=6000)]},
-    'probe': False,
+    'probe': True,
     'level': 'model_checking',
     'explanation': 'Kani harness on the real evaluate_v with recording Tag pieces and a counting input iterator: for sorted non-NaN ends and any non-NaN '
                    'argument sequence, output k is the piece direct evaluation selects for the running maximum, evaluated at argument k itself, produced '
@@ -448,7 +448,7 @@ PROPS['C16'] = {
                         mp('c16_linear_no_knots_mustpanic', 'linear', 'documented rejection: fewer than 2 knots'),
                         mp('c16_spline_two_knots_mustpanic', 'spline', 'documented rejection: fewer than 3 knots')])],
     },
-    'probe': False,
+    'probe': True,
     'level': 'other',
     'explanation': 'Panic-freedom is an obligation of every unit: Verus proves that the assert! in Piecewise::evaluate cannot fire and that indexing/unwrap are safe for '
                    'every f64 argument and any number of segments, and that the merge loops of + and - cannot panic on well-formed operands of any size, and (u_pweval) that PiecewiseEvaluator::new on a non-empty list and evaluate from any invariant-satisfying state cannot panic, for any number of segments and every f64 query, a NaN query leaving the state untouched (the backward iterator chain is behind a trusted contract there); Kani checks bounds, unwrap, overflow and assert! in the harnesses with UNCONSTRAINED f64 queries '
